@@ -1046,6 +1046,6 @@ HARNESSES = [
     Harness("sync-sendmsg", lambda w: _h_sync(w, "sync-sendmsg"), weight=2),
     Harness("sync-send", lambda w: _h_sync(w, "sync-send"), weight=1),
     Harness("aio-adapter", _h_aio, weight=2),
-    Harness("aio-tls", _h_aio_tls, weight=1, wall_limit=60.0),
-    Harness("sync-tls", _h_sync_tls, weight=1, wall_limit=60.0),
+    Harness("aio-tls", _h_aio_tls, weight=1, wall_limit=180.0),
+    Harness("sync-tls", _h_sync_tls, weight=1, wall_limit=180.0),
 ]
